@@ -149,7 +149,6 @@ static void write_elf_header(
     case CPU_TYPE_AVR8:
       elf->e_machine = 0x53;
       elf->e_flags = 0x85;
-      elf->e_shnum++;
       break;
     case CPU_TYPE_CELL:
       elf->e_machine = 23;
